@@ -101,6 +101,26 @@ Section CompressProofs.
     reflexivity.
   Qed.
 
+  (* the writer as repaired (F18): for EVERY block and level, either the frame with the TRUE lengths - the very
+     bytes of the unchecked writer - or LengthTooLarge, exactly when a length does not fit 32 bits *)
+  Theorem C16_frame_checked : forall l d,
+    match write_compressed_checked deflate l d with
+    | Ok b => nlen d < 2^32 /\ nlen (deflate l d) < 2^32 /\
+              b = write_var_u32 (nlen d) ++ write_var_u32 (nlen (deflate l d)) ++ deflate l d /\
+              b = write_compressed deflate l d
+    | Err e => e = ELengthTooLarge /\ (2^32 <= nlen d \/ 2^32 <= nlen (deflate l d))
+    | Panic _ | Fuel => False
+    end.
+  Proof.
+    intros l d. unfold write_compressed_checked.
+    destruct (nlen d <? 2 ^ 32) eqn:Hd.
+    - apply N.ltb_lt in Hd. cbv zeta.
+      destruct (nlen (deflate l d) <? 2 ^ 32) eqn:Hz.
+      + apply N.ltb_lt in Hz. repeat split; try assumption. symmetry. apply C16_frame; assumption.
+      + apply N.ltb_ge in Hz. split; [reflexivity | right; exact Hz].
+    - apply N.ltb_ge in Hd. split; [reflexivity | left; exact Hd].
+  Qed.
+
   (* ---------- the reader on a well-formed prefix (no law on inflate) ---------- *)
   Lemma read_compressed_frame_list u z s :
     u < 2^32 -> nlen z < 2^32 ->
@@ -278,11 +298,13 @@ Corollary C16_roundtrip_ctx deflate inflate :
 Proof. intros H. exact (C16_roundtrip_src deflate inflate H ctx_reader _ _ ctx_refines). Qed.
 
 Check C16_frame.
+Check C16_frame_checked.
 Check C16_roundtrip_list.
 Check C16_roundtrip_src.
 Check C16_truncated.
 Check C16_reserve.
 Print Assumptions C16_frame.
+Print Assumptions C16_frame_checked.
 Print Assumptions C16_roundtrip_list.
 Print Assumptions C16_roundtrip_src.
 Print Assumptions C16_truncated.
